@@ -1,0 +1,125 @@
+// Copyright 2021 TiKV Project Authors.
+//
+// Licensed under the Apache License, Version 2.0 (the "License");
+// you may not use this file except in compliance with the License.
+// You may obtain a copy of the License at
+//
+//     http://www.apache.org/licenses/LICENSE-2.0
+//
+// Unless required by applicable law or agreed to in writing, software
+// distributed under the License is distributed on an "AS IS" BASIS,
+// See the License for the specific language governing permissions and
+// limitations under the License.
+
+//go:build verif
+// +build verif
+
+// Machine-checked contracts for the store-candidate pipeline and the filters of the replica / rule checkers
+// (checked by /verif/govc; comment-only file).
+package filter
+
+// A filter is a deterministic predicate of (filter value, options, store) during one selection: the interface
+// methods are specified by uninterpreted predicates (assumed: they do not change any state).
+//@ func (Filter).Target
+//@   assumed
+//@   ensures result == ufb("passT", self, opt, store)
+//@   modifies nothing
+//@ func (Filter).Source
+//@   assumed
+//@   ensures result == ufb("passS", self, opt, store)
+//@   modifies nothing
+
+// Select*Stores keep exactly the stores that every filter accepts, in their original order (closures over
+// slice.AllOf and a metrics counter; trusted at this level).
+//@ func SelectTargetStores
+//@   assumed
+//@   ensures [only-from-input] forall i :: {result[i]} 0 <= i && i < len(result) ==> 0 <= uf("srcIdx", result, i) && uf("srcIdx", result, i) < len(stores) && result[i] == stores[uf("srcIdx", result, i)]
+//@   ensures [all-pass] forall i, k :: {result[i], filters[k]} 0 <= i && i < len(result) && 0 <= k && k < len(filters) ==> ufb("passT", filters[k], opt, result[i])
+//@   ensures [fresh] len(result) <= len(stores) && fresharray(result)
+//@   modifies nothing
+//@ func SelectSourceStores
+//@   assumed
+//@   ensures [only-from-input] forall i :: {result[i]} 0 <= i && i < len(result) ==> 0 <= uf("srcIdx", result, i) && uf("srcIdx", result, i) < len(stores) && result[i] == stores[uf("srcIdx", result, i)]
+//@   ensures [all-pass] forall i, k :: {result[i], filters[k]} 0 <= i && i < len(result) && 0 <= k && k < len(filters) ==> ufb("passS", filters[k], opt, result[i])
+//@   ensures [fresh] len(result) <= len(stores) && fresharray(result)
+//@   modifies nothing
+
+// The candidate list is narrowed WITHOUT touching the slice it was built from: NewCandidates does not copy its
+// argument, and callers go on using theirs (alias screen: no append onto a re-slice of the caller's array).
+//@ func (*StoreCandidates).FilterTarget
+//@   props C10 C11
+//@   option aliasscreen
+//@   requires c != nil
+//@   ensures [same-object] result == c && fresharray(c.Stores)
+//@   ensures [only-from-input] forall i :: {c.Stores[i]} 0 <= i && i < len(c.Stores) ==> 0 <= uf("srcIdx", c.Stores, i) && uf("srcIdx", c.Stores, i) < old(len(c.Stores)) && c.Stores[i] == old(c.Stores)[uf("srcIdx", c.Stores, i)]
+//@   ensures [all-pass] forall i, k :: {c.Stores[i], filters[k]} 0 <= i && i < len(c.Stores) && 0 <= k && k < len(filters) ==> ufb("passT", filters[k], opt, c.Stores[i])
+//@   modifies c.Stores
+//@ func (*StoreCandidates).FilterSource
+//@   props C10 C11
+//@   option aliasscreen
+//@   requires c != nil
+//@   ensures [same-object] result == c && fresharray(c.Stores)
+//@   ensures [only-from-input] forall i :: {c.Stores[i]} 0 <= i && i < len(c.Stores) ==> 0 <= uf("srcIdx", c.Stores, i) && uf("srcIdx", c.Stores, i) < old(len(c.Stores)) && c.Stores[i] == old(c.Stores)[uf("srcIdx", c.Stores, i)]
+//@   ensures [all-pass] forall i, k :: {c.Stores[i], filters[k]} 0 <= i && i < len(c.Stores) && 0 <= k && k < len(filters) ==> ufb("passS", filters[k], opt, c.Stores[i])
+//@   modifies c.Stores
+
+//@ func (*StoreCandidates).PickFirst
+//@   props C10 C11
+//@   requires c != nil
+//@   ensures [from-the-list] result != nil ==> len(c.Stores) > 0 && result == c.Stores[0]
+//@   ensures [nil-means-empty] result == nil ==> len(c.Stores) == 0 || c.Stores[0] == nil
+//@   modifies nothing
+//@ func (*StoreCandidates).RandomPick
+//@   props C10 C11
+//@   requires c != nil
+//@   ensures [from-the-list] result != nil ==> (exists i :: 0 <= i && i < len(c.Stores) && result == c.Stores[i])
+//@   modifies nothing
+//@ func (*StoreCandidates).Top
+//@   props C10 C11
+//@   option pureparams
+//@   requires c != nil
+//@   ensures [prefix] result == c && samearray(c.Stores, old(c.Stores)) && len(c.Stores) <= old(len(c.Stores)) && (forall i :: {c.Stores[i]} 0 <= i && i < len(c.Stores) ==> c.Stores[i] == old(c.Stores)[i])
+//@   loop 1 invariant 0 <= i && i <= len(c.Stores) && c.Stores == old(c.Stores)
+//@   modifies c.Stores
+
+// Sort permutes the candidates (the order itself is not specified here; the sort is modelled as a permutation).
+//@ func (*StoreCandidates).Sort
+//@   props C10 C11
+//@   option pureparams
+//@   requires c != nil
+//@   ensures [same-object] result == c && len(c.Stores) == old(len(c.Stores)) && samearray(c.Stores, old(c.Stores))
+//@   ensures [only-from-input] forall i :: {c.Stores[i]} 0 <= i && i < len(c.Stores) ==> (exists j :: 0 <= j && j < len(c.Stores) && c.Stores[i] == old(c.Stores[j]))
+//@   modifies c.Stores[*]
+
+// Configuration getters (TTL cache, atomic values) are deterministic reads here.
+//@ opaque github.com/tikv/pd/server/config::(*PersistOptions).GetMaxStoreDownTime, github.com/tikv/pd/server/config::(*PersistOptions).GetMaxSnapshotCount, github.com/tikv/pd/server/config::(*PersistOptions).GetMaxPendingPeerCount, github.com/tikv/pd/server/config::(*PersistOptions).CheckLabelProperty, github.com/tikv/pd/server/config::(*PersistOptions).GetLowSpaceRatio, github.com/tikv/pd/server/config::(*PersistOptions).GetHighSpaceRatio
+//@ opaque github.com/tikv/pd/server/core::(*StoreInfo).IsAvailable, github.com/tikv/pd/server/core::(*StoreInfo).DownTime
+
+// ---- what the concrete filters accept ----
+// excludedFilter: a target (source) is accepted exactly when its id is not in the excluded set.
+//@ func (*excludedFilter).Target
+//@   props C10 C11
+//@   requires f != nil && store != nil
+//@   ensures [not-excluded] result == !in(f.targets, ite(store.meta == nil, 0, store.meta.Id))
+//@   modifies nothing
+//@ func (*excludedFilter).Source
+//@   props C10 C11
+//@   requires f != nil && store != nil
+//@   ensures [not-excluded] result == !in(f.sources, ite(store.meta == nil, 0, store.meta.Id))
+//@   modifies nothing
+
+// StoreStateFilter as a region target: only stores in state Up are accepted (not tombstone, not offline).
+//@ func (*StoreStateFilter).Target
+//@   props C10 C11
+//@   requires f != nil && store != nil && opts != nil && (store.meta != nil ==> 0 <= store.meta.State && store.meta.State <= 2)
+//@   ensures [region-target-is-up] result && f.MoveRegion && !f.ScatterRegion ==> ite(store.meta == nil, 0, store.meta.State) == 0
+//@   ensures [scatter-target-is-up] result && f.MoveRegion && f.ScatterRegion ==> ite(store.meta == nil, 0, store.meta.State) == 0
+//@   ensures [leader-target-is-up] result && f.TransferLeader ==> ite(store.meta == nil, 0, store.meta.State) == 0
+//@   modifies f.Reason, ghost evres
+
+// Reverse permutes the candidates (loop of swaps; trusted at this level).
+//@ func (*StoreCandidates).Reverse
+//@   assumed
+//@   ensures [same-object] result == c && len(c.Stores) == old(len(c.Stores)) && samearray(c.Stores, old(c.Stores))
+//@   ensures [only-from-input] forall i :: {c.Stores[i]} 0 <= i && i < len(c.Stores) ==> (exists j :: 0 <= j && j < len(c.Stores) && c.Stores[i] == old(c.Stores[j]))
+//@   modifies c.Stores[*]
